@@ -7,6 +7,7 @@ import (
 	"math"
 
 	"github.com/reactivego/ivg"
+	"github.com/reactivego/ivg/raster"
 	"github.com/reactivego/ivg/render"
 	"verif/mc"
 	"verif/rec"
@@ -162,7 +163,13 @@ func (st *c05State) check(cs *c05Case) {
 	if variant == 0 {
 		// the plain order; the Renderer was used before for a graphic whose viewBox has the
 		// same extent but another origin
-		z.SetRasterizer(&st.ras, rect)
+		if len(cs.Letters) <= 2 && cs.Reps <= 1 {
+			// short paths also through the pass-through raster.RasterizerLogger (it prints every call and
+			// must hand each one on unchanged)
+			z.SetRasterizer(&raster.RasterizerLogger{Rasterizer: &st.ras}, rect)
+		} else {
+			z.SetRasterizer(&st.ras, rect)
+		}
 		z.Reset(ivg.ViewBox{MinX: vb.MinX + 5, MinY: vb.MinY - 3, MaxX: vb.MaxX + 5, MaxY: vb.MaxY - 3}, ivg.DefaultPalette)
 		z.Reset(vb, ivg.DefaultPalette)
 	} else {
